@@ -2,7 +2,7 @@
 # Build the overlay interpreter used by every check: /venv's packages (PGPy's own dependencies) plus
 # crosshair-tool and z3-solver from the offline wheelhouse.  Idempotent; offline.
 set -e
-V=/verif/.venv
+V=$(cd "$(dirname "$0")" && pwd)/.venv
 if [ -x "$V/bin/python" ] && "$V/bin/python" -c "import crosshair, z3, cryptography" 2>/dev/null; then
     exit 0
 fi
